@@ -526,6 +526,19 @@ where
     pub fn stop(&self) {
         self.close();
 
+        // Let the reducer drain the queue while the pool is still in place: effects of the
+        // actions accepted before stop() must be scheduled, not skipped because the pool is gone.
+        let timeout = Duration::from_secs(3);
+        let started = Instant::now();
+        let pool_ref = self.pool.lock().unwrap().clone();
+        if let Some(pool) = pool_ref {
+            if cfg!(dev) {
+                pool.join();
+            } else {
+                pool.join_timeout(timeout);
+            }
+        }
+
         // Shutdown the thread pool with timeout
         // lock pool
         let pool_took = self.pool.lock().unwrap().take();
@@ -535,7 +548,7 @@ where
                 // wait forever
                 pool.shutdown_join();
             } else {
-                pool.shutdown_join_timeout(Duration::from_secs(3));
+                pool.shutdown_join_timeout(timeout.saturating_sub(started.elapsed()));
             }
             #[cfg(dev)]
             eprintln!("store: shutdown pool");
